@@ -363,8 +363,12 @@ TickitTerm *tickit_window_get_term(const TickitWindow *win)
 
 void tickit_window_close(TickitWindow *win)
 {
-  if(win->parent)
+  if(win->parent) {
+    /* Once unlinked, neither this window nor its descendants can reach the
+     * root any more, so queued changes that name them must go now */
+    _purge_hierarchy_changes(win);
     _do_hierarchy_change(TICKIT_HIERARCHY_REMOVE, win->parent, win);
+  }
 
   win->is_closed = true;
 }
@@ -397,6 +401,12 @@ void tickit_window_destroy(TickitWindow *win)
     TickitRootWindow *root = WINDOW_AS_ROOT(win);
     if(root->damage) {
       tickit_rectset_destroy(root->damage);
+    }
+
+    while(root->hierarchy_changes) {
+      HierarchyChange *req = root->hierarchy_changes;
+      root->hierarchy_changes = req->next;
+      free(req);
     }
 
     tickit_term_unbind_event_id(root->term, root->event_ids[0]);
@@ -947,11 +957,28 @@ static void _request_hierarchy_change(HierarchyChangeType change, TickitWindow *
 
 static void _purge_hierarchy_changes(TickitWindow *win)
 {
-  TickitRootWindow *root = _get_root(win);
+  /* If an ancestor has already been closed there is no root to reach any
+   * more; its close already purged everything below it */
+  const TickitWindow *top = win;
+  while(top->parent)
+    top = top->parent;
+  if(!top->is_root)
+    return;
+
+  TickitRootWindow *root = WINDOW_AS_ROOT(top);
   HierarchyChange **changep = &root->hierarchy_changes;
   while(*changep) {
     HierarchyChange *req = *changep;
-    if(req->parent == win || req->win == win) {
+
+    /* Requests naming win or any window below it */
+    bool within = false;
+    for(TickitWindow *w = req->win; w; w = w->parent)
+      if(w == win) {
+        within = true;
+        break;
+      }
+
+    if(within) {
       *changep = req->next;
       free(req);
     }
